@@ -1,5 +1,5 @@
 (* CodecCheck.v — correspondence and monitors for the wire protocol (C17). *)
-From Tramp Require Import Model.Base Model.Codec Check.Common.
+From Tramp Require Import Model.Base Model.Codec Model.Driver Check.Common.
 
 Definition frames_eqb (a b : list (list N)) : bool := list_eqb bytes_eqb a b.
 
@@ -21,11 +21,15 @@ Definition verdict_encode (x : list (list N) * list N) : N :=
 
 (* driver case: number of hook requests (ids 0..n-1 in arrival order), completion order, observed (id, echoed tag) of the replies in write order,
    number of unparseable frames, trailing bytes, the log lines the handlers emitted (by request index) and the log notifications read back *)
+Definition dbody (_ : msg) : list N := [65].
 Definition run_driver (n : nat) (order : list N) : list N :=
   let reqs := map N.of_nat (seq 0 n) in
-  let '(pending, _) := fold_left (fun acc id => let '(p, out) := acc in let '(p', o) := dstep p (DRequest id) in (p', out ++ o)) reqs ([], []) in
   let full_order := order ++ filter (fun id => negb (existsb (N.eqb id) order)) reqs in
-  snd (fold_left (fun acc id => let '(p, out) := acc in let '(p', o) := dstep p (DComplete id) in (p', out ++ o)) full_order (pending, [])).
+  (* the machine of Model/Driver.v under the schedule the harness forces: every request dispatched, then the handlers
+     released one by one, each reply forwarded and written before the next handler is released *)
+  let evs := flat_map (fun id => [VReq id; VDispatch]) reqs
+             ++ flat_map (fun id => [VComplete id; VRecv; VAcquire WDriver; VWrite 3; VRelease]) full_order in
+  replies (d_done (drun dbody evs dinit)).
 
 Definition count_occ_N (x : N) (l : list N) : nat := length (filter (N.eqb x) l).
 
